@@ -250,6 +250,26 @@ def r09_5(ctx):
     W = wa.positional_params()[1]
     ok = bool(tr) and all(any(t.startswith(W + '.pid in ') and t.endswith('.worker_pids()') and p
                               for (t, p) in q.guards_norm(wa, n)) for n in tr)
+    if not tr:
+        # the search read in its normal form (sa/normalize.py search_loops): next((True for job in <cache> if
+        # <pid in owners>), False) -- or any(<pid in owners> for job in <cache>)
+        def member(c):
+            t = ast.unparse(c).replace(' ', '')
+            return t.startswith(W + '.pidin') and t.endswith('.worker_pids()')
+        for n in rets:
+            v = n.ast.value
+            if isinstance(v, ast.Call) and isinstance(v.func, ast.Name) and v.args and \
+                    isinstance(v.args[0], ast.GeneratorExp) and len(v.args[0].generators) == 1:
+                g = v.args[0]
+                it = ast.unparse(g.generators[0].iter)
+                over_cache = it.startswith('self._cache.') or it.startswith('list(self._cache.') or \
+                    it.startswith('tuple(self._cache.')
+                if v.func.id == 'next' and len(v.args) == 2 and ast.unparse(g.elt) == 'True' and \
+                        ast.unparse(v.args[1]) == 'False' and len(g.generators[0].ifs) == 1 and \
+                        member(g.generators[0].ifs[0]) and over_cache:
+                    ok, tr = True, [n]
+                elif v.func.id == 'any' and not g.generators[0].ifs and member(g.elt) and over_cache:
+                    ok, tr = True, [n]
     ctx.ob('R09.5', '_worker_active:owner-of-a-cached-job', ok, wa, tr[0] if tr else None,
            'active iff its pid is among the owners of a job in the cache')
     lx = m.cls('pool:LaxBoundedSemaphore')
